@@ -47,6 +47,7 @@ class Contract:
         self.modifies = g('modifies', [])       # fields of self havocked by a call
         self.updates = g('updates', {})         # {field of self: spec function of the PRE-state} (mutators)
         self.assume_loops = g('assume_loops', ())   # loop invariants proved by another variant of the same function: assumed at exit here
+        self.generics = g('generics', ())       # names of rigid generic integer constants (arbitrary but fixed per activation)
         self.stop_after = g('stop_after', ())   # loop-invariant names after whose exit the path ends (phase proofs)
         self.quant_prune = g('quant_prune', True)   # use quantified facts to prune branches (slow when the pc holds big invariants)
         self.tier = g('tier', 'quick')          # 'thorough': verified in the thorough tier only (slow)
@@ -213,6 +214,7 @@ def verify_contract(c, timeout_ms=10000, explore_timeout_ms=3000):
     I = make_interp(explore_timeout_ms, c.extended)
     I.stop_after_loops = set(c.stop_after)
     I.assume_loops = set(c.assume_loops)
+    I.generics = tuple(c.generics)
     I.ex.quant_prune = c.quant_prune
     prop = c.props[0] if c.props else 'C??'
     short = c.qual.replace('serif.', '', 1)
@@ -258,7 +260,7 @@ def _explore_lemma(I, c, prop):
 
 
 def _explore_function(I, c, tgt, mode, prop, short):
-    def thunk():
+    def thunk_inner():
         if mode == 'nested':
             outer, onode, inner = tgt
             cenv = Env(outer.__globals__, None, c.nested[0])
@@ -340,6 +342,17 @@ def _explore_function(I, c, tgt, mode, prop, short):
                 I.ex.prove(f'{prop}:{short}:unexpected-exception[{exc.pycls.__name__}]',
                            z3.BoolVal(False), kind='unexpected-exception', exact=c.exact)
         return outcome
+    def thunk():
+        # a construct outside the modelled subset ends THIS path with an undecided marker; the
+        # other paths of the function are still explored and their obligations still decided
+        try:
+            return thunk_inner()
+        except Unsupported as e:
+            from .explore import PathEnd
+            ob = I.ex.prove(f'{prop}:{short}:path-unsupported', z3.BoolVal(False), kind='unsupported', exact=False,
+                            meta={'unsupported': str(e)})
+            ob.preset = ('undecided', f'unsupported on this path: {e}')
+            raise PathEnd()
     return I.ex.explore(thunk)
 
 
